@@ -214,6 +214,61 @@ func rulePrec(c *Ctx) *RuleResult {
 			}
 		}
 	}
+	// the operand of a unary operator is parsed by ShortExp itself, which owns a
+	// following ^ (so -x^2 is -(x^2)): no path from a unary case to the ^ test of the
+	// outer call may skip that recursive call
+	{
+		hatBlocks := map[*ssa.BasicBlock]bool{}
+		forEachInstr(shortExp, func(ins ssa.Instruction) {
+			if b, ok := ins.(*ssa.BinOp); ok && b.Op == token.EQL {
+				if k, isK := constInt(b.Y); isK && k == tokC["SgHat"] {
+					if _, tn, ok := namedOf(b.X.Type()); ok && tn == "Type" {
+						hatBlocks[b.Block()] = true
+					}
+				}
+			}
+		})
+		recursive := map[*ssa.BasicBlock]bool{}
+		forEachInstr(shortExp, func(ins ssa.Instruction) {
+			if call, ok := ins.(*ssa.Call); ok && call.Call.StaticCallee() == shortExp {
+				recursive[ins.Block()] = true
+			}
+		})
+		bad := ""
+		for k, blks := range cases {
+			if !unaryCases[k] {
+				continue
+			}
+			for _, start := range blks {
+				seen := map[*ssa.BasicBlock]bool{start: true}
+				q := []*ssa.BasicBlock{start}
+				for len(q) > 0 && bad == "" {
+					b := q[0]
+					q = q[1:]
+					if recursive[b] {
+						continue
+					}
+					if hatBlocks[b] && b != start {
+						bad = nameOfConst(tokC, k)
+						break
+					}
+					for _, sc := range b.Succs {
+						if !seen[sc] {
+							seen[sc] = true
+							q = append(q, sc)
+						}
+					}
+				}
+			}
+		}
+		if len(hatBlocks) == 0 {
+			r.broken("ShortExp has no test for token.SgHat (anchor moved?)")
+		} else if bad == "" {
+			r.ok("(d) a unary operator's operand is always parsed by ShortExp before the outer ^ test (unary binds less tightly than ^)")
+		} else {
+			r.fail("unary-operand-skips-pow", p.Pos(shortExp.Pos()), fmt.Sprintf("in ShortExp's unary case (token.%s) some path reaches the test for '^' without having parsed the operand through the recursive ShortExp call: on that path the unary operator is applied before ^, so -2^2 means (-2)^2", bad))
+		}
+	}
 	for n := range manualUnops {
 		if unaryCases[tokC[n]] {
 			r.ok("(b) ShortExp treats token." + n + " as a unary operator")
